@@ -194,6 +194,35 @@ def malformed(rng, mi, ms):
     return e
 
 
+def header_attacks(mi, ms, tag):
+    """Decoder inputs that are well-formed except for one header digit (or well-formed for the length a
+    lenient decoder would read): every digit value around RADIX and around the size limits, in the
+    initial header and in both digits of a later header, followed by exactly the payload that length
+    announces (capped) and a clean end."""
+    out = []
+    digs = sorted({0, 1, 2, 250, 251, 252, 253, 254, 255, mi % 253, (mi + 1) % 256, ms % 253, (ms % 253 + 1) % 256, ms // 253, (ms // 253 + 1) % 256})
+    cap = 800 if ms > 1000 else 40
+
+    def pay(n, b):
+        return [b] * min(n, cap)
+
+    for h0 in digs:
+        for tail in ([], [0, 0]):
+            e = [h0] + pay(h0, 0x61) + tail
+            out.append(f"{tag} E D X{hexs(e)} b:{len(e)}")
+    first = [min(mi, 2)] + pay(min(mi, 2), 0x62)        # a short first chunk (ended by a stuff sequence)
+    for lo in digs:
+        for hi in digs:
+            if hi > 3 and hi not in (ms // 253, (ms // 253 + 1) % 256, 252, 253, 254, 255):
+                continue
+            n = lo + 253 * hi
+            e = first + [lo, hi] + pay(n, 0x61)
+            out.append(f"{tag} E D X{hexs(e)} c:{len(first)} b:{len(e)}")
+            if n <= cap:
+                out.append(f"{tag} E D X{hexs(e + [0, 0])} b:1 c:{len(e) + 1}")
+    return out
+
+
 def generate(rng, n, tier, pid):
     out = []
     tiny = [(3, 5), (1, 1), (2, 3), (1, 2), (4, 4), (5, 3)]
@@ -208,6 +237,8 @@ def generate(rng, n, tier, pid):
             k += 1
             out.append(f"{mi} {ms} E b:{hexs(m)} D")
             out.append(f"{mi} {ms} E c:{hexs(m[:cut])} {'b' if k % 3 else 'a'}:{hexs(m[cut:])} db:{k % 5} D c:{1 + k % 3} ds:1 b:{k % 4}")
+    pmi0, pms0 = prod()
+    out += header_attacks(pmi0, pms0, "P P") + header_attacks(3, 5, "3 5") + header_attacks(1, 1, "1 1")
     nt = n * 6 // 10
     for _ in range(nt):
         mi, ms = rng.choice(tiny)
